@@ -132,6 +132,44 @@ func init() {
 		fr.i.ctx.env.hooks[fr.concreteString(args[0])] = args[1].(iface).v
 		return nil
 	}
+	capture := func(std int) intrinsic {
+		return func(fr *frame, args []value) value {
+			e := fr.i.ctx.env
+			get := func() *[]value {
+				if std == 1 {
+					return &e.stdout
+				}
+				return &e.stderr
+			}
+			n := len(*get())
+			call(fr.i, fr, 0, args[0], nil)
+			var acc value = ""
+			for _, c := range (*get())[n:] {
+				acc = fr.appendStr(acc, c)
+			}
+			return acc
+		}
+	}
+	verifAPI["verifCaptureStdout"] = capture(1)
+	verifAPI["verifCaptureStderr"] = capture(2)
+	verifAPI["verifTempDir"] = func(fr *frame, args []value) value {
+		e := fr.i.ctx.env
+		e.nextFd++
+		d := fmt.Sprintf("/vtmp/d%d", e.nextFd)
+		e.mkdirAll(d)
+		return d
+	}
+	verifAPI["verifBzip2"] = func(fr *frame, args []value) value {
+		e := fr.i.ctx.env
+		p := cleanPath(e, fr.concreteString(args[0]))
+		n := e.files[p]
+		if n == nil {
+			panic("vf: bzip2 of missing file " + p)
+		}
+		delete(e.files, p)
+		e.putNode(p+".bz2", n)
+		return nil
+	}
 	verifAPI["verifMapOrder"] = func(fr *frame, args []value) value {
 		fr.i.ctx.mapOrder = int(fr.concreteInt(args[0]))
 		return nil
